@@ -29,7 +29,7 @@ func init() {
 			"resolution 0 (alias of 960), resolutions above 32767 (clamped) and more than 65535 tracks are outside the stated domain",
 			"messages are non-empty smf.Message values: channel messages, FF type VLQ payload metas in canonical form, F0/F7 sysex and escape messages",
 		},
-		Require: []string{"bank_reads", "dumps_among_notes", "histories", "smpte_files", "rs_elisions_by_writer", "delta_ge_2^28", "early_close", "add_after_close", "variadic_add", "unclosed_tracks", "tracks_added_again_after_more_adds", "events_compared", "norunningstatus_files", "file_roundtrips", "read_modify_write_values", "concurrent_roundtrips", "vlq_width_combinations"},
+		Require: []string{"bank_reads", "dumps_among_notes", "histories", "smpte_files", "rs_elisions_by_writer", "delta_ge_2^28", "early_close", "add_after_close", "variadic_add", "unclosed_tracks", "tracks_added_again_after_more_adds", "end_of_track_inside_multi_message_add", "events_compared", "norunningstatus_files", "file_roundtrips", "read_modify_write_values", "concurrent_roundtrips", "vlq_width_combinations"},
 		Run:     runC01,
 	})
 }
@@ -40,7 +40,7 @@ type apiValue struct {
 	sh   *ref.File
 	desc []string
 	// feature counts
-	early, afterClose, variadic, unclosed, bigDelta, readded int
+	early, afterClose, variadic, unclosed, bigDelta, readded, eotInVariadic int
 }
 
 func (a *apiValue) log(f string, v ...any) {
@@ -199,6 +199,12 @@ func buildHistory(r *mon.Rand, maxDelta uint32, allowBig bool) *apiValue {
 				for j := 0; j < n; j++ {
 					prev = randomMsg(r, prev, false)
 					ms = append(ms, prev)
+				}
+				if r.P(1, 12) {
+					// the end-of-track message in the middle of one multi-message Add: what follows it in the
+					// same call comes after the track was closed and is ignored like any Add after Close
+					ms[r.Intn(len(ms))] = smf.EOT
+					a.eotInVariadic++
 				}
 				d := delta()
 				if closed {
@@ -388,6 +394,7 @@ func c01Check(c *mon.Ctx, a *apiValue, label string) {
 	c.Count("variadic_add", int64(a.variadic))
 	c.Count("unclosed_tracks", int64(a.unclosed))
 	c.Count("tracks_added_again_after_more_adds", int64(a.readded))
+	c.Count("end_of_track_inside_multi_message_add", int64(a.eotInVariadic))
 	c.Count("delta_ge_2^28", int64(a.bigDelta))
 	if countEvents(a.sh) > len(a.sh.Tracks) {
 		c.DistinctBytes(b)
